@@ -396,3 +396,18 @@ Definition check_cell (D order h hp : N) (nb : list N) : bool :=
   && ((h =? 0) || existsb (fun h' => h' + 1 =? h) nb)
   && forallb (fun h' => negb (h' =? h)) nb.
 
+(* the per-cell check at every cell of the order-n grid, for an indexing [g]
+   (and [gp] one order lower) *)
+Definition all_cells2 (order : N) : list (N * N) :=
+  let r := map N.of_nat (seq 0 (N.to_nat (2 ^ order))) in
+  flat_map (fun x => map (fun y => (x, y)) r) r.
+Definition all_cells3 (order : N) : list (N * N * N) :=
+  let r := map N.of_nat (seq 0 (N.to_nat (2 ^ order))) in
+  flat_map (fun x => flat_map (fun y => map (fun z => (x, y, z)) r) r) r.
+Definition check_table2 (order : N) (g gp : N * N -> N) : bool :=
+  forallb (fun c => check_cell 2 order (g c) (gp (fst c / 2, snd c / 2))
+                               (map g (nbrs2 order (fst c) (snd c)))) (all_cells2 order).
+Definition check_table3 (order : N) (g gp : N * N * N -> N) : bool :=
+  forallb (fun c => let '(x, y, z) := c in
+                    check_cell 3 order (g c) (gp (x / 2, y / 2, z / 2)) (map g (nbrs3 order x y z)))
+          (all_cells3 order).
